@@ -6,7 +6,7 @@
 //! results and the target's exit (reason as seen by its supervisor).  No `verif` controller is
 //! installed: tasks are scheduled by tokio itself.
 //!
-//! usage: timers --seed S --cases N --out DIR [--corpus f1,f2]
+//! usage: timers --seed S --cases N --out DIR [--replay-ops f1,f2] [--only-replay 1]
 
 use std::future::Future;
 use std::panic::AssertUnwindSafe;
@@ -421,8 +421,8 @@ fn main() {
     let mut st = Stats::default();
     let mut log = Log::create(std::path::Path::new(&out)).unwrap();
     let mut all: Vec<Vec<Op>> = Vec::new();
-    // corpus files (one op per line, `case` separates) run first
-    if let Some(c) = args.0.get("corpus") {
+    // corpus / replay files (one op per line, `case` separates) run first
+    if let Some(c) = args.0.get("replay-ops") {
         for f in c.split(',').filter(|f| !f.is_empty()) {
             let txt = std::fs::read_to_string(f).expect("corpus file");
             let mut cur: Vec<Op> = Vec::new();
@@ -445,11 +445,13 @@ fn main() {
             st.bump("corpus_files");
         }
     }
-    let fixed = fixed_cases();
-    st.add("fixed_cases", fixed.len() as u64);
-    all.extend(fixed);
-    for _ in 0..cases {
-        all.push(gen_case(&mut rng, &mut st));
+    if args.u64("only-replay", 0) != 1 {
+        let fixed = fixed_cases();
+        st.add("fixed_cases", fixed.len() as u64);
+        all.extend(fixed);
+        for _ in 0..cases {
+            all.push(gen_case(&mut rng, &mut st));
+        }
     }
     for (ci, ops) in all.iter().enumerate() {
         st.bump("cases");
